@@ -234,6 +234,20 @@ fn ast_pat(p: &syn::Pat) -> J {
         syn::Pat::Paren(r) => ast_pat(&r.pat),
         syn::Pat::Type(t) => ast_pat(&t.pat),
         syn::Pat::Lit(l) => a("plit", vec![ast_expr(&syn::Expr::Lit(l.clone()))]),
+        syn::Pat::Struct(st) if st.qself.is_none() => a(
+            "pstruct",
+            vec![
+                ast_path(&st.path),
+                J::A(st.fields
+                    .iter()
+                    .map(|f| match &f.member {
+                        syn::Member::Named(n) => J::A(vec![s(n), ast_pat(&f.pat)]),
+                        m => a("unsupported", vec![jn(m)]),
+                    })
+                    .collect()),
+                J::B(st.rest.is_some()),
+            ],
+        ),
         p => a("unsupported", vec![jn(p)]),
     }
 }
@@ -267,6 +281,20 @@ fn ast_macro(m: &syn::Macro) -> J {
     let name = m.path.segments.last().map(|x| x.ident.to_string()).unwrap_or_default();
     match name.as_str() {
         "panic" | "unreachable" => a("panic", vec![s(&name)]),
+        "format" => {
+            struct F(syn::LitStr);
+            impl syn::parse::Parse for F {
+                fn parse(input: syn::parse::ParseStream) -> syn::Result<Self> {
+                    let l: syn::LitStr = input.parse()?;
+                    let _rest: proc_macro2::TokenStream = input.parse()?;
+                    Ok(F(l))
+                }
+            }
+            match m.parse_body::<F>() {
+                Ok(F(l)) => a("format", vec![s(l.value())]),
+                Err(_) => a("unsupported", vec![jn(m)]),
+            }
+        }
         "matches" => {
             struct M(syn::Expr, syn::Pat);
             impl syn::parse::Parse for M {
@@ -318,7 +346,12 @@ fn ast_expr(e: &syn::Expr) -> J {
         E::Call(c) => a("call", vec![ast_expr(&c.func), J::A(c.args.iter().map(ast_expr).collect())]),
         E::MethodCall(c) => a(
             "mcall",
-            vec![ast_expr(&c.receiver), s(&c.method), J::A(c.args.iter().map(ast_expr).collect())],
+            vec![
+                ast_expr(&c.receiver),
+                s(&c.method),
+                J::A(c.args.iter().map(ast_expr).collect()),
+                c.turbofish.as_ref().map(|t| jn(&t.args)).unwrap_or(J::Null),
+            ],
         ),
         E::Index(i) => a("index", vec![ast_expr(&i.expr), ast_expr(&i.index)]),
         E::Binary(b) => a("bin", vec![s(ast_binop(&b.op)), ast_expr(&b.left), ast_expr(&b.right)]),
@@ -346,6 +379,7 @@ fn ast_expr(e: &syn::Expr) -> J {
                             ast_pat(&arm.pat),
                             arm.guard.as_ref().map(|(_, g)| ast_expr(g)).unwrap_or(J::Null),
                             ast_expr(&arm.body),
+                            J::A(arm.attrs.iter().filter(|x| !x.path().is_ident("doc")).map(|x| jn(&x.meta)).collect()),
                         ])
                     })
                     .collect()),
@@ -381,6 +415,10 @@ fn ast_expr(e: &syn::Expr) -> J {
             ],
         ),
         E::Macro(m) => ast_macro(&m.mac),
+        E::Try(t) => a("try", vec![ast_expr(&t.expr)]),
+        E::Closure(c) if c.capture.is_none() && c.asyncness.is_none() => {
+            a("closure", vec![J::A(c.inputs.iter().map(ast_pat).collect()), ast_expr(&c.body)])
+        }
         e => a("unsupported", vec![jn(e)]),
     }
 }
@@ -417,6 +455,7 @@ fn mode_ast(path: &str, out: &mut String) {
     let mut fns = vec![];
     let mut structs = vec![];
     let mut methods = vec![];
+    let mut trait_methods = vec![];
     for it in &file.items {
         match it {
             syn::Item::Struct(st) => {
@@ -450,6 +489,42 @@ fn mode_ast(path: &str, out: &mut String) {
                             ("owner", s(&owner)),
                             ("name", s(&f.sig.ident)),
                             ("attrs", J::A(f.attrs.iter().filter(|x| !x.path().is_ident("doc")).map(|x| jn(&x.meta)).collect())),
+                            ("generics", jn(&f.sig.generics)),
+                            ("params", J::A(params)),
+                            ("ret", ret),
+                            ("body", ast_block(&f.block)),
+                        ]));
+                    }
+                }
+            }
+            syn::Item::Impl(im) if im.trait_.is_some() => {
+                let owner = match &*im.self_ty {
+                    syn::Type::Path(p) => p.path.segments.last().map(|x| x.ident.to_string()).unwrap_or_default(),
+                    t => norm(t),
+                };
+                let tr = im.trait_.as_ref().map(|(_, p, _)| p.segments.last().map(|x| x.ident.to_string()).unwrap_or_default()).unwrap_or_default();
+                for ii in &im.items {
+                    if let syn::ImplItem::Fn(f) = ii {
+                        let params: Vec<J> = f
+                            .sig
+                            .inputs
+                            .iter()
+                            .map(|x| match x {
+                                syn::FnArg::Receiver(r) => J::A(vec![a("self", vec![J::B(r.reference.is_some()), J::B(r.mutability.is_some())]), ast_type(&im.self_ty)]),
+                                syn::FnArg::Typed(t) => J::A(vec![ast_pat(&t.pat), ast_type(&t.ty)]),
+                            })
+                            .collect();
+                        let ret = match &f.sig.output {
+                            syn::ReturnType::Default => a("tunit", vec![]),
+                            syn::ReturnType::Type(_, t) => ast_type(t),
+                        };
+                        trait_methods.push(J::O(vec![
+                            ("owner", s(&owner)),
+                            ("trait", s(&tr)),
+                            ("self_ty", ast_type(&im.self_ty)),
+                            ("name", s(&f.sig.ident)),
+                            ("attrs", J::A(f.attrs.iter().chain(im.attrs.iter()).filter(|x| !x.path().is_ident("doc")).map(|x| jn(&x.meta)).collect())),
+                            ("impl_generics", jn(&im.generics)),
                             ("generics", jn(&f.sig.generics)),
                             ("params", J::A(params)),
                             ("ret", ret),
@@ -509,6 +584,6 @@ fn mode_ast(path: &str, out: &mut String) {
             _ => {}
         }
     }
-    J::O(vec![("enums", J::A(enums)), ("fns", J::A(fns)), ("structs", J::A(structs)), ("methods", J::A(methods))]).write(out);
+    J::O(vec![("enums", J::A(enums)), ("fns", J::A(fns)), ("structs", J::A(structs)), ("methods", J::A(methods)), ("trait_methods", J::A(trait_methods))]).write(out);
     out.push('\n');
 }
